@@ -26,12 +26,27 @@ func isTemplatesMap(v ssa.Value) bool {
 	return ok
 }
 
-func wrapsNotFound(v ssa.Value) bool {
+func wrapsNotFound(v ssa.Value) bool { return wrapsNotFoundD(v, 0) }
+
+func wrapsNotFoundD(v ssa.Value, depth int) bool {
 	c, ok := v.(*ssa.Call)
 	if !ok {
 		return false
 	}
 	f := c.Call.StaticCallee()
+	// a helper of the package that builds the error: every one of its returns wraps it
+	if f != nil && f.Pkg != nil && f.Pkg.Pkg.Path() == twigPath && len(f.Blocks) > 0 && depth < 3 && f.Signature.Results().Len() == 1 {
+		all, n := true, 0
+		instrsOf(f, func(in ssa.Instruction) {
+			if ret, ok := in.(*ssa.Return); ok {
+				n++
+				if res := retResults(ret); len(res) != 1 || !wrapsNotFoundD(res[0], depth+1) {
+					all = false
+				}
+			}
+		})
+		return all && n > 0
+	}
 	if f == nil || f.String() != "fmt.Errorf" || len(c.Call.Args) < 2 {
 		return false
 	}
@@ -60,6 +75,23 @@ func checkC15(w *World, r *Report) {
 
 	load := w.ssaFunc(w.method("Engine", "Load"))
 	name := ssaName(load)
+	// Engine.Load and the unexported helpers it is split into
+	parts := w.loadPartsSet()
+	var partList []*ssa.Function
+	for _, fn := range w.pkgFuncs() {
+		if parts[fn] {
+			partList = append(partList, fn)
+		}
+	}
+	hasLoaderLoop := func(g *ssa.Function) bool {
+		found := false
+		instrsOf(g, func(in ssa.Instruction) {
+			if c, ok := in.(ssa.CallInstruction); ok && c.Common().IsInvoke() && c.Common().Method.Name() == "Load" && isNamed(c.Common().Value.Type(), twigPath, "Loader") {
+				found = true
+			}
+		})
+		return found
+	}
 
 	// ---- R15.1: the `template == nil` branch
 	n1 := 0
@@ -73,7 +105,16 @@ func checkC15(w *World, r *Report) {
 		if !ok || (bo.Op != token.EQL && bo.Op != token.NEQ) || !isNilConst(bo.Y) || !isNamed(bo.X.Type(), twigPath, "Template") {
 			continue
 		}
-		if _, isPhi := bo.X.(*ssa.Phi); !isPhi {
+		_, isPhi := bo.X.(*ssa.Phi)
+		fromPart := false
+		if ex, ok := bo.X.(*ssa.Extract); ok {
+			if c, ok := ex.Tuple.(*ssa.Call); ok {
+				if g := c.Call.StaticCallee(); g != nil && parts[g] && hasLoaderLoop(g) {
+					fromPart = true
+				}
+			}
+		}
+		if !isPhi && !fromPart {
 			continue // the cached-template tests compare a lookup result, not the loop's result
 		}
 		nilRegion = b.Succs[trueIdx]
@@ -160,14 +201,12 @@ func checkC15(w *World, r *Report) {
 		}
 		fn := w.ssaFunc(m)
 		cacheFalse := func(b *ssa.BasicBlock, i int) bool {
-			v, trueIdx, ok := ifCond(b)
-			if !ok {
+			return anyEdgeFact(b, i, func(v ssa.Value, trueIdx int) bool {
+				if _, ok := fieldLoad(v, "Environment", "cache"); ok {
+					return i != trueIdx
+				}
 				return false
-			}
-			if _, ok := fieldLoad(v, "Environment", "cache"); ok {
-				return i != trueIdx
-			}
-			return false
+			})
 		}
 		stores := func(in ssa.Instruction) bool {
 			if mu, ok := in.(*ssa.MapUpdate); ok && isTemplatesMap(mu.Map) {
@@ -218,100 +257,125 @@ func checkC15(w *World, r *Report) {
 
 	// ---- R15.4
 	n4 := 0
-	cacheOn := &boolFlow{fn: load, entry: false}
-	cacheOn.edge = func(b *ssa.BasicBlock, i int) bool {
-		v, trueIdx, ok := ifCond(b)
-		if !ok {
+	cacheFlows := map[*ssa.Function]*boolFlow{}
+	cacheFlow := func(fn *ssa.Function) *boolFlow {
+		if fl := cacheFlows[fn]; fl != nil {
+			return fl
+		}
+		fl := &boolFlow{fn: fn, entry: false}
+		fl.edge = func(b *ssa.BasicBlock, i int) bool {
+			return anyEdgeFact(b, i, func(v ssa.Value, trueIdx int) bool {
+				if _, ok := fieldLoad(v, "Environment", "cache"); ok {
+					return i == trueIdx
+				}
+				return false
+			})
+		}
+		fl.solve()
+		cacheFlows[fn] = fl
+		return fl
+	}
+	// the cache flag is on at the instruction: in its function, or at every call site of the
+	// (unexported) part it lies in
+	var cacheOnAt func(fn *ssa.Function, in ssa.Instruction, depth int) bool
+	cacheOnAt = func(fn *ssa.Function, in ssa.Instruction, depth int) bool {
+		if cacheFlow(fn).at(in) {
+			return true
+		}
+		if fn == load || depth > 3 {
 			return false
 		}
-		if _, ok := fieldLoad(v, "Environment", "cache"); ok {
-			return i == trueIdx
+		node := w.callgraph().Nodes[fn]
+		if node == nil || len(node.In) == 0 {
+			return false
 		}
-		return false
+		for _, e := range node.In {
+			if e.Site == nil || !parts[e.Caller.Func] || !cacheOnAt(e.Caller.Func, e.Site, depth+1) {
+				return false
+			}
+		}
+		return true
 	}
-	cacheOn.solve()
-	instrsOf(load, func(in ssa.Instruction) {
-		switch x := in.(type) {
-		case *ssa.Lookup:
-			if !isTemplatesMap(x.X) {
-				return
-			}
-			n4++
-			if cacheOn.at(in) {
-				r.ok("R15.4", name, "cache consulted only when caching is enabled", w.posOf(in.Pos()), "lookup dominated by the true edge of the cache flag", true)
-			} else {
-				r.bad("R15.4", name, "cache consulted only when caching is enabled", w.posOf(in.Pos()), "the cache is read although caching may be disabled: 'with caching disabled every call re-reads the loaders' fails")
-			}
-		case *ssa.MapUpdate:
-			if !isTemplatesMap(x.Map) {
-				return
-			}
-			n4++
-			if cacheOn.at(in) {
-				r.ok("R15.4", name, "cache written only when caching is enabled", w.posOf(in.Pos()), "store dominated by the true edge of the cache flag", true)
-			} else {
-				r.bad("R15.4", name, "cache written only when caching is enabled", w.posOf(in.Pos()), "the cache is written although caching may be disabled")
-			}
-		case *ssa.BinOp:
-			// comparison of GetModifiedTime's result with Template.lastModified
-			var other ssa.Value
-			if ex, ok := x.X.(*ssa.Extract); ok && isGetModTime(ex.Tuple) {
-				other = x.Y
-			} else if ex, ok := x.Y.(*ssa.Extract); ok && isGetModTime(ex.Tuple) {
-				other = x.X
-			}
-			if other == nil {
-				return
-			}
-			if _, ok := fieldLoad(other, "Template", "lastModified"); !ok {
-				return
-			}
-			n4++
-			op := x.Op
-			if _, isEx := x.Y.(*ssa.Extract); isEx && isGetModTime(x.Y.(*ssa.Extract).Tuple) {
-				// lastModified OP current  → flip
-				switch op {
-				case token.LSS:
-					op = token.GTR
-				case token.GTR:
-					op = token.LSS
-				case token.LEQ:
-					op = token.GEQ
-				case token.GEQ:
-					op = token.LEQ
+	for _, part := range partList {
+		pname := ssaName(part)
+		instrsOf(part, func(in ssa.Instruction) {
+			switch x := in.(type) {
+			case *ssa.Lookup:
+				if !isTemplatesMap(x.X) {
+					return
+				}
+				n4++
+				if cacheOnAt(part, in, 0) {
+					r.ok("R15.4", pname, "cache consulted only when caching is enabled", w.posOf(in.Pos()), "lookup dominated by the true edge of the cache flag", true)
+				} else {
+					r.bad("R15.4", pname, "cache consulted only when caching is enabled", w.posOf(in.Pos()), "the cache is read although caching may be disabled: 'with caching disabled every call re-reads the loaders' fails")
+				}
+			case *ssa.MapUpdate:
+				if !isTemplatesMap(x.Map) {
+					return
+				}
+				n4++
+				if cacheOnAt(part, in, 0) {
+					r.ok("R15.4", pname, "cache written only when caching is enabled", w.posOf(in.Pos()), "store dominated by the true edge of the cache flag", true)
+				} else {
+					r.bad("R15.4", pname, "cache written only when caching is enabled", w.posOf(in.Pos()), "the cache is written although caching may be disabled")
+				}
+			case *ssa.BinOp:
+				// comparison of GetModifiedTime's result with Template.lastModified
+				var other ssa.Value
+				if ex, ok := x.X.(*ssa.Extract); ok && isGetModTime(ex.Tuple) {
+					other = x.Y
+				} else if ex, ok := x.Y.(*ssa.Extract); ok && isGetModTime(ex.Tuple) {
+					other = x.X
+				}
+				if other == nil {
+					return
+				}
+				if _, ok := fieldLoad(other, "Template", "lastModified"); !ok {
+					return
+				}
+				n4++
+				op := x.Op
+				if _, isEx := x.Y.(*ssa.Extract); isEx && isGetModTime(x.Y.(*ssa.Extract).Tuple) {
+					// lastModified OP current  → flip
+					switch op {
+					case token.LSS:
+						op = token.GTR
+					case token.GTR:
+						op = token.LSS
+					case token.LEQ:
+						op = token.GEQ
+					case token.GEQ:
+						op = token.LEQ
+					}
+				}
+				construct := "staleness test: current modification time " + op.String() + " cached lastModified"
+				if op == token.GTR || op == token.NEQ {
+					r.ok("R15.4", pname, construct, w.posOf(x.Pos()), "a newer (or different) timestamp triggers the reload; an equal one does not", true)
+				} else {
+					r.bad("R15.4", pname, construct, w.posOf(x.Pos()), "the reload decision uses "+op.String()+": either an unchanged template is re-read on every call or a changed one is never reloaded")
+				}
+			case *ssa.Store:
+				// the timestamp recorded with the loaded template must be on the same clock as the one
+				// it is later compared with: it derives from the loader's GetModifiedTime, not time.Now
+				fa, ok := x.Addr.(*ssa.FieldAddr)
+				if !ok {
+					return
+				}
+				if tn, f := fieldOfAddr(fa); tn != "Template" || f != "lastModified" {
+					return
+				}
+				n4++
+				construct := "recorded lastModified is the loader's modification time"
+				src := timestampSource(x.Val, map[ssa.Value]bool{}, 0)
+				if src == "loader" {
+					r.ok("R15.4", pname, construct, w.posOf(in.Pos()), "derives from GetModifiedTime of the loader that delivered the source (0 if the loader has no timestamps)", true)
+				} else {
+					r.bad("R15.4", pname, construct, w.posOf(in.Pos()), "the cached template's lastModified comes from "+src+", but the staleness test compares it with the loader's modification time: a change whose timestamp is not later than the previous load is never picked up")
 				}
 			}
-			construct := "staleness test: current modification time " + op.String() + " cached lastModified"
-			if op == token.GTR || op == token.NEQ {
-				r.ok("R15.4", name, construct, w.posOf(x.Pos()), "a newer (or different) timestamp triggers the reload; an equal one does not", true)
-			} else {
-				r.bad("R15.4", name, construct, w.posOf(x.Pos()), "the reload decision uses "+op.String()+": either an unchanged template is re-read on every call or a changed one is never reloaded")
-			}
-		}
-	})
-	// the timestamp recorded with the loaded template must be on the same clock as the one it
-	// is later compared with: it derives from the loader's GetModifiedTime, not from time.Now
-	instrsOf(load, func(in ssa.Instruction) {
-		st, ok := in.(*ssa.Store)
-		if !ok {
-			return
-		}
-		fa, ok := st.Addr.(*ssa.FieldAddr)
-		if !ok {
-			return
-		}
-		if tn, f := fieldOfAddr(fa); tn != "Template" || f != "lastModified" {
-			return
-		}
-		n4++
-		construct := "recorded lastModified is the loader's modification time"
-		src := timestampSource(st.Val, map[ssa.Value]bool{}, 0)
-		if src == "loader" {
-			r.ok("R15.4", name, construct, w.posOf(in.Pos()), "derives from GetModifiedTime of the loader that delivered the source (0 if the loader has no timestamps)", true)
-		} else {
-			r.bad("R15.4", name, construct, w.posOf(in.Pos()), "the cached template's lastModified comes from "+src+", but the staleness test compares it with the loader's modification time: a change whose timestamp is not later than the previous load is never picked up")
-		}
-	})
+		})
+	}
 	r.floor("cache accesses and staleness tests in Engine.Load", n4, 3)
 	r.note("with the cache flag off RegisterString/RegisterTemplate drop the template (the map is registry and cache in one); by reading, not decided")
 }
